@@ -1,7 +1,7 @@
 """C08 -- one conversion round reaches a fixpoint (the normal form is stable)."""
 import re
 
-from .. import coqbuild, irtools as T
+from .. import coqbuild, edtie, irtools as T
 from ..common import GLOBAL_TRUSTED_BASE
 from ..model import call_many
 from ..normtools import enc_def, enc_typ, state_of
@@ -23,15 +23,36 @@ CONFIGS = [("docstring-rest", "docstring", {"docstring_format": "rest"}, "any"),
 MODEL_FMT = {"docstring-rest": "docstring", "class": "class", "pydantic": "pydantic", "function": "function", "argparse": "argparse"}
 
 
+# (none of the parser's ad hoc type words: "number", "of", "or", "path", ... -- those are T.TRIGGER_DOCS)
+LONG_WORDS = ["the", "count", "for", "steps", "taken", "before", "estimate", "gradient", "is", "considered", "to", "have", "settled", "over",
+              "a", "window", "value", "used", "when", "nothing", "else", "applies", "and", "then"]
+
+
+def long_doc(rng):
+    """a one-sentence description of 70..100 characters: with the announcer appended, the line wraps at or next to "Defaults to" """
+    n = rng.randint(70, 100)
+    s = rng.choice(LONG_WORDS)
+    while len(s) < n:
+        s += " " + rng.choice(LONG_WORDS)
+    return s[:n].rstrip() + rng.choice(["", ".", ""])
+
+
 def gen_ir(rng, domain):
     if domain == "sig":
-        return T.gen_ir(rng, "sig", docs="trigger")
-    if domain == "json":
+        ir = T.gen_ir(rng, "sig", docs="trigger")
+    elif domain == "json":
         ir = T.gen_ir(rng, "common", docs="trigger", suffix_defaults=False)
-        return ir
-    if domain == "sql":
-        return T.gen_ir(rng, "sql", docs="trigger", suffix_defaults=False, returns=0.0)
-    return T.gen_ir(rng, "doc" if rng.random() < 0.5 else "sig", docs="trigger", suffix_defaults=False)
+    elif domain == "sql":
+        ir = T.gen_ir(rng, "sql", docs="trigger", suffix_defaults=False, returns=0.0)
+    else:
+        ir = T.gen_ir(rng, "doc" if rng.random() < 0.5 else "sig", docs="trigger", suffix_defaults=False)
+    if rng.random() < 0.3:
+        entries = list(ir["params"].values()) + ([ir["returns"]["return_type"]] if ir.get("returns") else [])
+        if entries:
+            rng.choice(entries)["doc"] = long_doc(rng)
+            if ir.get("returns") and rng.random() < 0.5:
+                ir["returns"]["return_type"]["doc"] = long_doc(rng)
+    return ir
 
 
 def coarsen(tag, cls):
@@ -121,13 +142,30 @@ def collect(ctx, n_ir, rounds_max):
     for i in range(n_ir):
         for tag, fmt, cfg, dom in CONFIGS:
             work.append((tag, fmt, cfg, gen_ir(rng, dom), rng.randint(2, rounds_max)))
-    agg = {"n": 0, "stable": 0, "changed_in_round1": 0}
+    # sweep: a return (and a parameter) description of every length around the wrap column, with a default, so that the emitted
+    # "<doc>. Defaults to <x>" line breaks before, inside and after the announcer -- for the formats that re-append and re-strip it
+    from collections import OrderedDict
+    for L in range(74, 98):
+        base = long_doc(rng).rstrip(".")
+        while len(base) < L:
+            base += " " + rng.choice(LONG_WORDS)
+        doc = base[:L].rstrip()
+        for tag, fmt, cfg, dom in CONFIGS:
+            if tag in ("json_schema", "docstring-rest", "docstring-rest-edd", "function-edd", "class-edd"):
+                ir = {"name": "Thing", "doc": "Thing description.",
+                      "params": OrderedDict((("alpha", {"typ": "int", "doc": doc, "default": 5}), ("beta", {"typ": "str", "doc": "the name shown to the user"}))),
+                      "returns": OrderedDict((("return_type", {"typ": "int", "doc": doc, "default": "```5```"}),))}
+                work.append((tag, fmt, cfg, ir, 3))
+    agg = {"n": 0, "stable": 0, "changed_in_round1": 0, "ed": 0}
     items, corr = [], []
+    n_ed, _found, bad = edtie.compare([(edtie.gen(rng), rng.random() < 0.5) for _ in range(40 * n_ir)])
+    agg["ed"] = n_ed
+    corr += bad[:3]
     for r in run_cases(worker, [work[i:i + 10] for i in range(0, len(work), 10)], chunk=1):
         if "harness_error" in r:
             items.append(("C08/harness/error", {"detail": r}, None))
             continue
-        for k in agg:
+        for k in ("n", "stable", "changed_in_round1"):
             agg[k] += r[k]
         items += r["items"]
         corr += r["corr"][:3]
@@ -142,7 +180,8 @@ def run(ctx):
                        "input": T.jsonable(ir) if ir else None, "detail": det})
     if not ctx.violations:
         if corr:
-            ctx.violation({"stage": "correspondence: Model/Norm.v rounds vs implementation rounds", "detail": corr[:3],
+            ctx.violation({"stage": "correspondence: Model/Norm.v rounds vs implementation rounds; Model/ExtractDefault.v vs extract_default",
+                           "detail": corr[:3],
                            "n_disagreements": len(corr)}, no_input=True)
         elif not status["ok"]:
             ctx.violation({"stage": "proof", "theorem": status.get("failing_theorem"),
@@ -153,12 +192,14 @@ def run(ctx):
         "trusted_base": GLOBAL_TRUSTED_BASE + [
             "C08_idempotent is about the measured normal-form table Model/Norm.v (type + default of one parameter, five formats); "
             "descriptions (trigger words, 'Defaults to' sentences), json_schema, sqlalchemy* and Google/NumPy docstrings are covered by "
-            "running 2..4 real rounds and comparing round n with round n+1 exactly"],
+            "running 2..4 real rounds and comparing round n with round n+1 exactly; the stripping of the announcer (extract_default, text "
+            "level) is transcribed in Model/ExtractDefault.v and compared with the implementation on generated lines"],
         "evaluations": agg["n"], "distinct_nontrivial": agg["changed_in_round1"],
         "rule": "IRs incl. descriptions with type-hint trigger words, non-suffix defaults, List/Union/dotted types x 14 format "
                 "configurations x 2..4 rounds; non-trivial = the first round changed the parameters (so stability of round 2 is not vacuous)",
         "sequences": agg["n"], "sequences_stable_after_round_1": agg["stable"], "first_round_changed_something": agg["changed_in_round1"],
-        "model_disagreements": len(corr), "traces_validated_against_impl": agg["n"],
+        "extract_default_cases": agg["ed"],
+        "model_disagreements": len(corr), "traces_validated_against_impl": agg["n"] + agg["ed"],
         "samples": [T.jsonable(work[0][3]), work[0][0]],
         "build": {k: status[k] for k in ("build_s", "forbidden")},
     }
